@@ -1,5 +1,6 @@
 /- helper lemmas for C17 (fan-out and merge).  Core-only. -/
 import SemaModel.C17.Model
+import SemaModel.C06.Lemmas
 set_option linter.unusedSimpArgs false
 set_option linter.unusedVariables false
 namespace Sema.C17
@@ -513,153 +514,32 @@ theorem leScore_trans (a b c : Hit) (h1 : leScore a b = true) (h2 : leScore b c 
 theorem leScore_total (a b : Hit) : (leScore a b || leScore b a) = true := by
   simp [leScore]; omega
 
-theorem str_tri {a b : String} (h1 : ¬ a < b) (h2 : a ≠ b) : b < a := by
-  apply Classical.byContradiction
-  intro hb
-  exact h2 (String.le_antisymm (String.not_lt.mp hb) (String.not_lt.mp h1))
-
-theorem cmpVal_antisymm (x y : Val) : cmpVal y x = - cmpVal x y := by
-  cases x with
-  | int a => cases y with
-    | int b => simp only [cmpVal]; split <;> split <;> (try split) <;> (try split) <;> omega
-    | str b => simp [cmpVal]
-  | str a => cases y with
-    | int b => simp [cmpVal]
-    | str b =>
-      simp only [cmpVal]
-      by_cases h1 : a < b
-      · have h2 : ¬ b < a := String.lt_asymm h1
-        have h3 : b ≠ a := fun e => String.lt_irrefl a (e ▸ h1)
-        simp [h1, h2, h3]
-      · by_cases h2 : a = b
-        · subst h2; simp [String.lt_irrefl]
-        · have h3 : b < a := str_tri h1 h2
-          have h4 : b ≠ a := fun e => h2 e.symm
-          simp [h1, h2, h3, h4]
-
-theorem cmpVal_zero {x y : Val} (h : cmpVal x y = 0) : x = y := by
-  cases x with
-  | int a => cases y with
-    | int b =>
-      simp only [cmpVal] at h
-      split at h
-      · omega
-      · split at h
-        · subst_vars; rfl
-        · omega
-    | str b => simp [cmpVal] at h
-  | str a => cases y with
-    | int b => simp [cmpVal] at h
-    | str b =>
-      simp only [cmpVal] at h
-      split at h
-      · omega
-      · split at h
-        · subst_vars; rfl
-        · omega
-
-theorem cmpVal_self (x : Val) : cmpVal x x = 0 := by
-  cases x <;> simp [cmpVal, String.lt_irrefl]
-
-theorem cmpVal_trans {x y z : Val} (h1 : cmpVal x y ≤ 0) (h2 : cmpVal y z ≤ 0) : cmpVal x z ≤ 0 := by
-  cases x with
-  | int a => cases y with
-    | int b => cases z with
-      | int c =>
-        simp only [cmpVal] at *
-        by_cases e1 : a < b <;> by_cases e2 : b < c <;> by_cases e3 : a = b <;> by_cases e4 : b = c <;>
-          by_cases e5 : a < c <;> by_cases e6 : a = c <;> simp_all <;> omega
-      | str c => simp [cmpVal]
-    | str b => cases z with
-      | int c => simp [cmpVal] at h2
-      | str c => simp [cmpVal]
-  | str a => cases y with
-    | int b => simp [cmpVal] at h1
-    | str b => cases z with
-      | int c => simp [cmpVal] at h2
-      | str c =>
-        simp only [cmpVal] at *
-        by_cases e1 : a < b
-        · by_cases e2 : b < c
-          · simp [String.lt_trans e1 e2]
-          · by_cases e4 : b = c
-            · subst e4; simp [e1]
-            · simp [e2, e4] at h2
-        · by_cases e3 : a = b
-          · subst e3; exact h2
-          · simp [e1, e3] at h1
-
-theorem cmp1_antisymm (d : Bool) (a b : Option Val) : cmp1 d b a = - cmp1 d a b := by
-  cases a <;> cases b <;> simp [cmp1]
-  cases d
-  · simp; exact cmpVal_antisymm _ _
-  · simp; exact cmpVal_antisymm _ _
-
-theorem cmp1_zero {d : Bool} {a b : Option Val} (h : cmp1 d a b = 0) : a = b := by
-  cases a <;> cases b <;> simp [cmp1] at h ⊢
-  split at h
-  · exact (cmpVal_zero h).symm
-  · exact cmpVal_zero h
-
-theorem cmp1_self (d : Bool) (a : Option Val) : cmp1 d a a = 0 := by
-  cases a <;> simp [cmp1, cmpVal_self]
-
-theorem cmp1_trans {d : Bool} {a b c : Option Val} (h1 : cmp1 d a b ≤ 0) (h2 : cmp1 d b c ≤ 0) : cmp1 d a c ≤ 0 := by
-  cases a <;> cases b <;> cases c <;> simp [cmp1] at *
-  cases d
-  · simp at *; exact cmpVal_trans h1 h2
-  · simp at *; exact cmpVal_trans h2 h1
-
-theorem cmpKeys_antisymm (o : List Bool) : ∀ (a b : List (Option Val)), cmpKeys (zip3 o b a) = - cmpKeys (zip3 o a b) := by
-  induction o with
-  | nil => intro a b; simp [zip3, cmpKeys]
-  | cons d ds ih =>
-    intro a b
-    simp only [zip3, cmpKeys]
-    rw [cmp1_antisymm d a.head?.join b.head?.join, ih a.tail b.tail]
-    by_cases h : cmp1 d a.head?.join b.head?.join = 0
-    · simp [h]
-    · have : ¬ (-cmp1 d a.head?.join b.head?.join = 0) := by omega
-      simp [h, this]
-
-theorem cmpKeys_trans (o : List Bool) : ∀ (a b c : List (Option Val)),
-    cmpKeys (zip3 o a b) ≤ 0 → cmpKeys (zip3 o b c) ≤ 0 → cmpKeys (zip3 o a c) ≤ 0 := by
-  induction o with
-  | nil => intro a b c _ _; simp [zip3, cmpKeys]
-  | cons d ds ih =>
-    intro a b c h1 h2
-    simp only [zip3, cmpKeys] at *
-    generalize a.head?.join = x at *
-    generalize b.head?.join = y at *
-    generalize c.head?.join = z at *
-    by_cases hxy : cmp1 d x y = 0
-    · have := cmp1_zero hxy; subst this
-      simp only [cmp1_self, ne_eq, not_true_eq_false, if_false] at h1
-      by_cases hyz : cmp1 d x z = 0
-      · simp only [hyz, ne_eq, not_true_eq_false, if_false] at h2 ⊢
-        exact ih _ _ _ h1 h2
-      · simp only [hyz, ne_eq, not_false_eq_true, if_true] at h2 ⊢
-        exact h2
-    · simp only [hxy, ne_eq, not_false_eq_true, if_true] at h1
-      by_cases hyz : cmp1 d y z = 0
-      · have := cmp1_zero hyz; subst this
-        simp only [hxy, ne_eq, not_false_eq_true, if_true]; exact h1
-      · simp only [hyz, ne_eq, not_false_eq_true, if_true] at h2
-        have hxz := cmp1_trans h1 h2
-        by_cases e : cmp1 d x z = 0
-        · have := cmp1_zero e; subst this
-          have := cmp1_antisymm d x y
-          omega
-        · simp only [e, ne_eq, not_false_eq_true, if_true]; exact hxz
-
-theorem leKeys_trans (o : List Bool) (a b c : Hit) (h1 : leKeys o a b = true) (h2 : leKeys o b c = true) : leKeys o a c = true := by
+/-- the sort-key comparator is C06's `sortCmp`, a total preorder for every list of sort options and every
+kind of value (`Sema.C06.tpc_sortCmp`, over `tpc_cmpAny`) -/
+theorem leKeys_trans (o : List Sema.C06.SortOpt) (a b c : Hit) (h1 : leKeys o a b = true) (h2 : leKeys o b c = true) : leKeys o a c = true := by
   simp only [leKeys, decide_eq_true_eq] at *
-  exact cmpKeys_trans o _ _ _ h1 h2
+  exact (Sema.C06.tpc_sortCmp o).trans _ _ _ h1 h2
 
-theorem leKeys_total (o : List Bool) (a b : Hit) : (leKeys o a b || leKeys o b a) = true := by
+theorem leKeys_total (o : List Sema.C06.SortOpt) (a b : Hit) : (leKeys o a b || leKeys o b a) = true := by
   simp only [leKeys, Bool.or_eq_true, decide_eq_true_eq]
-  have := cmpKeys_antisymm o a.keys b.keys
+  have := (Sema.C06.tpc_sortCmp o).antisymm a.data b.data
   omega
+
+/-- with two or more shards the cluster sorts: the merged result is ordered whatever order the shards
+answered in -/
+theorem search_multi {α} (le : α → α → Bool) (sort : List α → List α) (hsort : IsSortBy le sort)
+    (heur : Nat → Nat → Nat) (maxLimit : Nat) (answers : List (Option (List α))) (limit offset : Nat) (r : List α)
+    (hn : 2 ≤ answers.length)
+    (h : searchPoints sort heur maxLimit answers limit offset = some r) :
+    r.Pairwise (fun x y => le x y = true) := by
+  unfold searchPoints at h
+  split at h
+  · cases h
+  · simp only [Option.some.injEq] at h
+    subst h
+    apply List.Pairwise.sublist (List.take_sublist _ _)
+    rw [if_pos (by omega)]
+    exact (hsort _).2
 
 /-! ### internalRoute -/
 
